@@ -8,7 +8,7 @@ META = {
              "IEEE < with NaN incomparable and -0 == +0), for all logit vectors, all K, all P, every SIMD width >= 1, "
              "every f32 addition and every softmax function: top-K never panics and returns min(K,n) entries, sorted "
              "descending by the total order, that are a sub-multiset of the input such that no dropped entry exceeds a "
-             "kept one; SIMD chunk+tail = scalar loop; top-P returns the input for p == 1.0 and otherwise a descending "
+             "kept one, and any output meeting that contract has exactly the scores of sort-then-truncate; SIMD chunk+tail = scalar loop; top-P returns the input for p == 1.0 and otherwise a descending "
              "top-prefix of the (softmax-normalised or raw) candidates such that no strictly shorter prefix reaches "
              "max(p, MIN_POSITIVE) and the prefix itself does unless it is everything, and is non-empty for non-empty "
              "input (partial sums = the code's own f32 sums); a Chain is the panic-propagating composition of its "
@@ -34,7 +34,7 @@ META = {
 GROUP = "filters"
 REQ = ("From RV Require Import Prelude.\nFrom Filters Require Import Floats ModelFilters.\n"
        "Open Scope N_scope.")
-THEOREMS = ["C31_topk_spec", "C31_topk_total", "C31_topk_simd_width_irrelevant", "C31_simd_loop_is_scalar_loop",
+THEOREMS = ["C31_topk_spec", "C31_topk_contract_fixes_scores", "C31_topk_scores_are_sort_truncate", "C31_topk_total", "C31_topk_simd_width_irrelevant", "C31_simd_loop_is_scalar_loop",
             "C31_topp_shortest_prefix", "C31_topp_nonempty", "C31_topp_never_panics",
             "C31_chain_is_composition", "C31_no_filter_panics",
             "C31_topk_oracle_reflects", "C31_topp_oracle_reflects",
